@@ -328,6 +328,45 @@ func TestVerifC03(t *testing.T) {
 		rep.Distinct++
 	}
 
+	// ---- A6: as A4, but Close() runs to COMPLETION while the sender serialises: done closed, socket closed, the sent map
+	// swapped - all before the call registers. The sender then registers, its write fails on the closed socket, fail() is
+	// already spent: the sender itself must complete the call (nobody else will).
+	for _, kind := range []string{"get", "put", "scan", "get-batched"} {
+		name := "A6/close-completes-while-the-sender-serialises/" + kind
+		verifsim.Bubble(t, func(t *testing.T) {
+			serialising, goOn := make(chan struct{}), make(chan struct{})
+			var env *rcEnv
+			var c1 *rcCall
+			if kind == "get-batched" {
+				env = newRCEnv(rcOpts{queueSize: 2, flushInterval: time.Millisecond})
+				c1 = env.newCall("a6", "get", true)
+				c1.call = &c03gatedGet{Get: c1.call.(*hrpc.Get), gate: func() { close(serialising); <-goOn }}
+			} else {
+				q := 1
+				if kind == "scan" { // a call that is never batched, on a batching client
+					q = 3
+				}
+				env = newRCEnv(rcOpts{queueSize: q, flushInterval: time.Millisecond})
+				k := kind
+				if kind == "scan" {
+					k = "get"
+				}
+				c1 = env.newCall("a6", k, false)
+				c1.call = &c03gated{Call: c1.call, gate: func() { close(serialising); <-goOn }}
+			}
+			env.goQueue(c1)
+			<-serialising // past the done check, not yet registered
+			env.c.Close()
+			rcSettle()
+			close(goOn)
+			rcSettle()
+			env.quiesce()
+			o.flush(name, env)
+			env.finish()
+		})
+		rep.Distinct++
+	}
+
 	// ---- A5 (real time, outside the bubble: a client that deadlocks on one of its own mutexes would stall virtual time): a
 	// sender's SetReadDeadline (inFlightUp) fails while the reader sits between unregistering a response's call and
 	// inFlightDown. Both calls must be completed: the answered one is the reader's to deliver.
